@@ -258,7 +258,7 @@ func LoopCut(src []byte, n int8) ([]byte, int, int) {
 type Pkt struct {
 	Ver  int16
 	Id   int32
-	Tags map[string]string
+	Tags chan int
 	Ret  int32
 	Desc string
 }
